@@ -39,7 +39,7 @@ txt.append('Lessons that shaped the harness: single-instruction differential che
 txt.append('---------------------------------------------------------------------------------------------\n')
 s = open('/verif/DESIGN.md').read()
 i = s.index('## 10. Seeded changes and which check catches which')
-j = s.index('## Appendix A.')
+j = s.index('## 11. Benign-change drill') if '## 11. Benign-change drill' in s else s.index('## Appendix A.')
 s = s[:i] + '\n'.join(txt) + '\n' + s[j:]
 open('/verif/DESIGN.md', 'w').write(s)
 print(len(rows), 'rows;', first, 'caught on first run')
